@@ -287,10 +287,10 @@ class DataProxy:
         # Key already existed -> nothing was mutated, short-circuit
         if key_existed:
             return ret
-        # Here, we can assume the key did not exist and thus user must have
-        # supplied a 'default' (if they did not, the real setdefault() above
-        # would have excepted.)
-        key, default = args
+        # Here, we can assume the key did not exist; the default is optional
+        # (as for dict.setdefault, which then stores None.)
+        key = args[0]
+        default = args[1] if len(args) > 1 else None
         self._track_modification_of(key, default)
         return ret
 
